@@ -12,6 +12,31 @@ COMMON_NOTE = ("Trusted: Coq 8.16.1 kernel (vm_compute used, native_compute not 
                "runtime semantics are modelled as executable Gallina and validated by the correspondence, not verified.")
 
 CLAIMED = {
+    "C01": dict(
+        text="Coq theorems: for every length and missing placement and all valid parameters each of the 11 test models returns (never raises) exactly one flag per input element (corollaries of the per-test refinement theorems); flags are one of five by typing with injective codes read from the source; the abstract machine the harness ties the code to is stateless (history theorem). Purity and history independence of the IMPLEMENTATION are decided by the harness: bit-level snapshots of all arguments around every call, repeats inside shuffled per-test histories and one interleaved history across all tests run twice in different orders. Partial: aliasing / hidden state cannot be exhibited by a Gallina model.",
+        design_ref="DESIGN.md §8 C01",
+        technique="Coq proof (totality corollaries of the refinements, stateless history machine) + purity/history correspondence",
+    ),
+    "C02": dict(
+        text="Coq theorems per test (all lengths, all 2^n placements of missing values via the quantifier over lists, all parameters and every climatology member shape): a missing observation is flagged MISSING, or UNKNOWN only at positions where the test is undefined (spike end points, first speed point, single density record); a present observation is MISSING only when the neighbour / depth / position it is judged against is missing. Tied by the per-test correspondence plus the property evaluated directly on the implementation's flags. Two genuine defects found here were repaired (F4 climatology, F5 flat line short series).",
+        design_ref="DESIGN.md §8 C02",
+        technique="Coq proof (per-point missing lemmas on the specifications that the models refine) + correspondence",
+    ),
+    "C15": dict(
+        text="Coq theorems: the tests' normalisation is the identity on every supported carrier (list/tuple with None or NaN, ndarray of any real dtype, Series, dask, masked array with NaN under the mask) and mapdates yields the denoted instants for every time carrier, hence any function of the normalised inputs returns equal flags for equal logical series; a masked array hiding finite values is refuted (known finding F13a). The real conversion code is tied by re-running every test on every carrier type against the base run that is itself compared with the Coq model. Partial: numpy/pandas/dask conversions are modelled, not verified.",
+        design_ref="DESIGN.md §8 C15",
+        technique="Coq proof (normalise = denote on supported carriers) + carrier-pair correspondence on all tests",
+    ),
+    "C16": dict(
+        text="Coq theorems, one per thresholded test, for all series and all ordered pairs of valid parameter sets: with spans/box nested, spike/rate/speed/hop thresholds not larger (or added), flat-line durations not longer and tolerance not smaller, attenuation and density thresholds not smaller (or added), no flag becomes less severe in GOOD<SUSPECT<FAIL and the UNKNOWN/MISSING positions are unchanged; adding a suspect threshold never downgrades FAIL. Tied by the per-test correspondence and by evaluating the relation on the implementation for generated (loose, strict) pairs. Found F7 (spike threshold 0), repaired.",
+        design_ref="DESIGN.md §8 C16",
+        technique="Coq proof (order reasoning on the per-point decision lists; window-inclusion monotonicity for flat line) + pairwise relation on the implementation",
+    ),
+    "C17": dict(
+        text="Coq theorems over Q and Z (exact arithmetic): value shift and negation invariance (spike, rate, flat line, attenuated, density), time-shift invariance (rate, flat line, attenuated, speed; climatology with absolute spans shifted too), joint data+span shift (gross / valid range), reversal of spike flags, and locality — a change of observation k changes only the flags in the test's neighbourhood (itself / k-1..k+1 / k,k+1 / the trailing windows containing k). Tied by applying the same transformations and single-point perturbations to implementation inputs on the dyadic grid.",
+        design_ref="DESIGN.md §8 C17",
+        technique="Coq proof (Qeq-compatible decision functions, per-point locality lemmas) + transformation relations on the implementation",
+    ),
     "C08": dict(
         text="Coq theorem with NO hypothesis: for every member list, series, time axis and depth pattern the operational model of ClimatologyConfig.check (ordered overwrites per member, depth-span members skipped when no depth is present, MISSING before and after the loop) equals 'the last matching member classifies the value (FAIL outside fspan, else SUSPECT outside vspan, else GOOD, bounds inclusive), UNKNOWN if none matches, MISSING if the value is missing' — by induction over the member list from the right; inclusive boundaries in either order for absolute, periodic and depth spans; calendar arithmetic on Z (civil-date round trip proved, period ranges, exhaustive check 1968-2040). Tied by correspondence over every period kind and member shape and by validating the calendar against pandas. Two genuine defects found by this machinery were repaired (F4, F6).",
         design_ref="DESIGN.md §8 C08",
